@@ -13,6 +13,8 @@ pub struct Chunky<'a> {
     pub pos: usize,
     pub interrupts: u8,
     pub calls: u32,
+    /// how many reads may still be short; `u8::MAX` = unlimited
+    pub short_left: u8,
 }
 
 impl<'a> Chunky<'a> {
@@ -22,7 +24,14 @@ impl<'a> Chunky<'a> {
             pos: 0,
             interrupts,
             calls: 0,
+            short_left: u8::MAX,
         }
+    }
+
+    /// at most `n` solver-placed short reads, every other read is served in full
+    pub fn with_short_budget(mut self, n: u8) -> Self {
+        self.short_left = n;
+        self
     }
 }
 
@@ -38,8 +47,15 @@ impl Read for Chunky<'_> {
         if max == 0 {
             return Ok(0);
         }
-        let n: usize = kani::any();
-        kani::assume(n >= 1 && n <= max);
+        let mut n = max;
+        if self.short_left > 0 {
+            let m: usize = kani::any();
+            kani::assume(m >= 1 && m <= max);
+            if m < max && self.short_left != u8::MAX {
+                self.short_left -= 1;
+            }
+            n = m;
+        }
         buf[..n].copy_from_slice(&self.data[self.pos..self.pos + n]);
         self.pos += n;
         Ok(n)
